@@ -44,7 +44,7 @@ PID = "C19"
 # (routed through report.known_match(); they print as KNOWN-FINDING once registered, until then they are skipped)
 DEPTH_FIRST_STRUCTURE_SIG = ("copy_fs/copy_dir(walker=Walker(search='depth')): copy_structure makes a nested directory "
                              "before its parent (ResourceNotFound)")
-PENDING_FINDINGS = [DEPTH_FIRST_STRUCTURE_SIG]
+PENDING_FINDINGS = []      # genuine defect, repaired in /repo (0b927fa): a violation again if it returns
 LOCAL_KNOWN = os.path.join(os.path.dirname(os.path.abspath(__file__)), "c19_known_local.json")
 BASE = 1000000000
 
@@ -932,6 +932,9 @@ def run(report):
         report.violation(dict(kind="copy-mirror", signature=sig, case=case_json(small), failures=run_case(dict(small))[:5],
                               theorem="Props/C19.v (copy_is_necessary_spec, copy_loop_spec)"))
     cov = coverage_of(cases, failures, sig_count)
+    # tree-level model (Copy/TreeCopy*.v): destination tree of the real copy_fs / copy_fs_if / mirror = model
+    import h_treecopy
+    cov.update(h_treecopy.run_tree_checks(report, random.Random(report.seed + 1900), report.tier))
     return report.finish(proof, cov, assumptions=[
         "modification times are set explicitly (1_000_000_000 + k) through setinfo; directory times are not compared",
         "mirror(copy_if_newer=True) is checked against fs/mirror.py's documented rule (_compare): a destination file is "
@@ -946,6 +949,9 @@ def run(report):
 def replay(report, path):
     with open(path) as fh:
         d = json.load(fh)
+    if d.get("kind") == "replica-differs-from-model":
+        import h_treecopy
+        return h_treecopy.replay_tree(d)
     case = d.get("case")
     if case is None:
         print("nothing to replay:", d.get("what"))
